@@ -566,8 +566,23 @@ pub fn process<I: BufRead, O: Write>(
                         let mut rex = format!("\\b{}\\(", mcro);
                         let params = caps.get(2).unwrap().as_str();
                         if !params.is_empty() {
+                            let mut seen: Vec<&str> = Vec::new();
                             for v in caps.get(2).unwrap().as_str().split(',') {
-                                let vx = v.trim_start();
+                                let vx = v.trim();
+                                // The name becomes a capture group of a regular expression
+                                let mut chars = vx.chars();
+                                if !chars.next().is_some_and(|c| c.is_ascii_alphabetic() || c == '_')
+                                    || !chars.all(|c| c.is_ascii_alphanumeric() || c == '_')
+                                    || seen.contains(&vx)
+                                {
+                                    return Err(Error::Syntax {
+                                        filename: filename.clone(),
+                                        included_in: included_in.clone(),
+                                        line,
+                                        msg: "Invalid macro parameter".to_string(),
+                                    });
+                                }
+                                seen.push(vx);
                                 let re = Regex::new(&format!("\\b{}\\b", vx)).unwrap();
                                 value = re.replace_all(&value, format!("$${}", vx)).to_string();
                                 //rex += &format!("(?P<{}>[^,]*?),", vx);
